@@ -330,12 +330,17 @@ func implFeedCap() int {
 // the same writes are registered before and after it and are read all the time (`drain1`) or now and then, so that
 // feeds of different fill levels — full, nearly full, empty — are in the controller's list in every order when the
 // writes past the slow one's capacity arrive. Ends with everything drained and a few more writes.
-func genFullFeed(r *hxlib.Run) hxlib.Case {
+func genFullFeed(r *hxlib.Run, canonical bool) hxlib.Case {
 	rng := r.Rng
 	var l []string
 	kind := pick(rng, []string{"hashmap 0", "hashmap 0", "hashmap 1", "inj 0"})
 	l = append(l, "db "+kind)
 	slowPrefix := pick(rng, []string{"a", "a/", "-", "a/x"})
+	if canonical {
+		// the first case of every run has the plain shape: the slow subscription first, then one on the same query
+		// object that is read after every write
+		return genFullFeedCanonical(r, l, slowPrefix)
+	}
 	l = append(l, fmt.Sprintf("q 0 %s T", slowPrefix))
 	nq := 1
 	type other struct {
@@ -426,6 +431,25 @@ func genFullFeed(r *hxlib.Run) hxlib.Case {
 	return hxlib.Case{Lines: l, Kind: "seq:fullfeed", NonTrivial: true}
 }
 
+func genFullFeedCanonical(r *hxlib.Run, l []string, slowPrefix string) hxlib.Case {
+	rng := r.Rng
+	l = append(l, fmt.Sprintf("q 0 %s T", slowPrefix), "sub 0 LI 0", "sub 1 LI 0", "sub 2 L 0")
+	capN := implFeedCap()
+	if capN < feedCapStatement {
+		capN = feedCapStatement
+	}
+	key := map[string]string{"a": "a/x", "a/": "a/y", "-": "b/x", "a/x": "a/x/1"}[slowPrefix]
+	for i := 0; i < capN+3+rng.Intn(4); i++ {
+		l = append(l, fmt.Sprintf("put LI %s %d %s -", key, i%10, pick(rng, genStrs)), "drain1 1")
+		if i%97 == 0 {
+			l = append(l, "drain1 2")
+		}
+	}
+	l = append(l, "drain1 2", "drain", "put LI "+key+" 5 foo -", "drain", "sizes")
+	r.Count("fullfeed:canonical")
+	return hxlib.Case{Lines: l, Kind: "seq:fullfeed", NonTrivial: true}
+}
+
 func pick2(rng *rand.Rand, l []int) int { return l[rng.Intn(len(l))] }
 
 // genMalformed: lines outside the grammar (both sides must answer bad-op and stay intact).
@@ -494,11 +518,11 @@ func gen(r *hxlib.Run, emit func(hxlib.Case)) {
 			emit(genMalformed(r))
 		}
 	}
+	for i, n := 0, r.Budget(8, 60); i < n; i++ {
+		emit(genFullFeed(r, i == 0))
+	}
 	for i, n := 0, r.Budget(4, 40); i < n; i++ {
 		emit(genOverflow(r))
-	}
-	for i, n := 0, r.Budget(8, 60); i < n; i++ {
-		emit(genFullFeed(r))
 	}
 	for i, n := 0, r.Budget(40, 400); i < n; i++ {
 		emit(hxlib.Case{Lines: []string{fmt.Sprintf("cfgpush %d", 1+r.Rng.Intn(5))}, Kind: "config-push", NonTrivial: i < 5, NoModel: true})
